@@ -727,7 +727,7 @@ def oracle(ctx: C.Ctx, cov: C.Coverage, n: Optional[int] = None, seed: Optional[
     out, sigs = [], set()
     seed = ctx.seed if seed is None else seed
     depth = 3 if ctx.tier == "quick" else 4
-    for i in range(n or ctx.budget(150, 6000)):
+    for i in range(n or ctx.budget(120, 6000)):
         for fmt in ("json", "xml"):
             f = check_case({"seed": seed, "index": i, "fmt": fmt, "depth": depth})
             cov.hit("oracle:" + fmt)
